@@ -1869,3 +1869,15 @@ def _r1_6(rep):
 
 
 RULES.rule("R1.6", "every type a generated item names is generated too: edge enumeration, codegen edge table and traversal are complete (shared with C09)", floor=60)(_r1_6)
+
+
+# R1.7 — added by the main session.  C01's second mechanism ("derive eligibility analyses gate every #[derive]") is decided by
+# C08's table rules; an independently seeded C01-breaking change (the Vector arm of the derive analysis no longer looks at the
+# element type, so a float vector member gets #[derive(Hash)]) was caught there but not here.
+def _r1_7(rep):
+    import c08
+    c08.r8_5(rep)
+    c08.r8_1(rep)
+
+
+RULES.rule("R1.7", "every emitted #[derive] is backed by the derive analysis applied to the right constituents (shared with C08 R8.1/R8.5)", floor=200)(_r1_7)
